@@ -14,6 +14,8 @@ Scenario kinds
         recording raw server (CS sample, client half); same faults.
   srv   a real web server (AppRunner/TCPSite/RequestHandler) answering a scripted
         raw client with responses built from the same specs (CS sample, server half).
+  file  (props/_c04w3.py) web.FileResponse behind the real server while another
+        writer changes the served file at a point of the file-access seam.
   w1    (generated here, executed by _c04w1) positions x random hostile strings.
 """
 from __future__ import annotations
@@ -174,8 +176,16 @@ def gen_respspec(rng):
     return spec
 
 
+FILE_SHARE = 0.09
+
+
 def gen(rng, tier):
     r = rng.random()
+    if r < FILE_SHARE:
+        from props import _c04w3 as W3
+
+        return W3.gen_file(rng)
+    r = (r - FILE_SHARE) / (1.0 - FILE_SHARE)  # the other kinds keep their proportions
     if r < 0.48:
         return gen_sw(rng)
     if r < 0.74:
@@ -213,6 +223,11 @@ def gen(rng, tier):
 
 def shrink(scn):
     k = scn["kind"]
+    if k == "file":
+        from props import _c04w3 as W3
+
+        yield from W3.shrink_file(scn)
+        return
     for f in ("cancel", "kill", "hold", "rd_pause"):
         if scn.get(f) is not None:
             yield dict(scn, **{f: None})
@@ -1365,6 +1380,10 @@ def run(scn, ch, log=False):
         return run_cli(scn, ch, log)
     if k == "srv":
         return run_srv(scn, ch, log)
+    if k == "file":
+        from props import _c04w3 as W3
+
+        return W3.run_file(scn, ch, log)
     raise RuntimeError("unknown scenario kind " + str(k))
 
 
@@ -1373,6 +1392,9 @@ def run(scn, ch, log=False):
 
 def selftest():
     """judge_stream on hand-made wires"""
+    from props import _c04w3 as W3
+
+    W3.selftest()
     head = refc.serialize_head("POST /p HTTP/1.1", [("Host", "a")])
 
     def j(wire, **kw):
